@@ -36,14 +36,12 @@ INDEX = "clematis.memory.index:InMemoryIndex"
 
 # atom prefix -> one-line reason (frozen; confirmed by reading)
 EXEMPT_T2 = {
-    "cfg:perf.parallel": "the shard fan-out returns what the sequential walk returns (C09); it selects a path, not a result",
     "cfg:t2.reader_batch": "block size of a streaming scan; scores are sorted afterwards",
     "cfg:perf.metrics": "metrics gate: adds diagnostics only",
     "cfg:t2.cache": "cache selection itself",
     "cfg:perf.t2.cache": "cache selection itself",
     "cfg:t2.lancedb": "backend construction parameters of the index object; the index instance is keyed (uid + version)",
     "cfg:t2.backend": "selects the index object, which is keyed by instance and version",
-    "cfg:t2.embed_root": "location of the embed store; its layout/dtype/shards are keyed when the reader is used",
     "cfg:t3.reflection.topk_snippets": "only sizes the snippet stash on ctx.turn_artifacts (not part of the result)",
     "state:mem_backend": "bookkeeping tags written next to the index",
     "state:mem_backend_fallback_reason": "bookkeeping tags written next to the index",
@@ -339,6 +337,47 @@ def lossy_key_parts(ctx, fn: Func, key_expr: ast.AST, at, outer: Optional[Func] 
                 keep.append((e, nd, bound))
         scan(outer, keep, okey_nodes)
     return out
+
+
+def rule_key_names_resource(ctx) -> None:
+    """a key part derived FROM a resource (layout / dtype / shard count read from an opened embed store) depends on the
+    resource's location but does not determine it: two stores of the same shape share those parts.  Wherever the cached
+    value is computed from a resource opened by location, the location itself is a key part."""
+    fn = ctx.func(T2)
+    cfg = ctx.cfg(fn)
+    rd = ctx.rd(fn)
+    site = next(((n, c) for n in cfg.nodes for c in node_calls(n) if call_tail(c) == "get" and src(c.func.value) == "cache" and len(c.args) >= 1), None)
+    if site is None:
+        raise AnalysisError("anchor-vanished: T2 stage cache lookup")
+    n, c = site
+    sl = rd.slice([c.args[0]], n)
+    opens = [d for d in rd.all_defs if d.value is not None and isinstance(d.value, ast.Call) and call_tail(d.value) in ("open_reader", "open", "connect", "open_table")
+             and d.kind == "assign"]
+    opens = [d for d in opens if any(isinstance(a, ast.Name) for a in d.value.args)]
+    ctx.floor("C05.KEY", "resources opened by location in t2_semantic", len(opens), 1)
+    for d in opens:
+        handle = d.name
+        derived = {handle}
+        for _ in range(3):
+            for d2 in rd.all_defs:
+                if d2.value is not None and any(isinstance(y, ast.Name) and y.id in derived for y in ast.walk(d2.value)):
+                    derived.add(d2.name)
+        direct: Set[str] = set()
+        for e, nd in sl.exprs:
+            if any(isinstance(y, ast.Name) and y.id in derived for y in ast.walk(e)) or any(y is d.value for y in ast.walk(e)):
+                continue
+            direct |= {y.id for y in ast.walk(e) if isinstance(y, ast.Name)}
+        # dict-literal parts of the key payload: values that are plain names count even when siblings are derived
+        for e, nd in sl.exprs:
+            for x in ast.walk(e):
+                if isinstance(x, ast.Dict):
+                    direct |= {v.id for v in x.values if isinstance(v, ast.Name) and v.id not in derived}
+        feeds = any(isinstance(y, ast.Name) and y.id in derived for e, nd in sl.exprs for y in ast.walk(e))
+        for a in [a for a in d.value.args if isinstance(a, ast.Name)]:
+            ctx.check(a.id in direct or not feeds, "C05.KEY", f"T2/resource-location-in-key:{call_tail(d.value)}", fn.loc(d.value),
+                      f"the location `{a.id}` of the opened resource is itself a key part",
+                      f"the key carries properties read from `{src(d.value)[:50]}` (shape / dtype / shard count) but not `{a.id}` itself: a turn configured for another store of the same shape "
+                      "is served the retrieval computed from this one")
 
 
 def rule_key_injective(ctx) -> None:
@@ -920,6 +959,7 @@ def run(ctx) -> None:
     rule_key_t1(ctx)
     rule_key_t1_roots(ctx)
     rule_key_injective(ctx)
+    rule_key_names_resource(ctx)
     rule_ver(ctx)
     rule_iso(ctx)
     rule_alias(ctx)
